@@ -28,7 +28,7 @@ RULE = ("create_cooler(ordered=False): regression corpus (D9: 2 or 3 chunks with
         "chromosomes), both storage modes, columns count / count+x, mergebuf 1..N+1, max_merge 1..k+1, unsorted chunks with ensure_sorted, empty chunks; all chunk orders of "
         "3-chunk inputs; `cooler load -f coo` and `cooler cload pairs` with --chunksize 1..4, --max-merge, --mergebuf, --temp-dir; edges of the first merge pass observed "
         "with delete_temp=False; np.linspace edge lists for n <= 5000 checked admissible; merge_breakpoints at function level on every family of 1..2 monotone index "
-        "arrays of length 2..3 (increments 0..2) x bufsize 1..nnz+1 plus random larger ones; the known finding D22 in a fresh interpreter; parameter/representation audit (one case each): chunks as dict of arrays / list / int32 ids / int32 and float64 values / with an unrequested column, columns=None, dtypes None / partial / float default, ids listed in columns, default mergebuf, max_merge 0 and -1, temp_dir None (location observed with delete_temp=False) and \"-\"bin-id columns of dtype int32 / int64 / uint16 / uint32 / uint64 x ensure_sorted on (rows shuffled) / off x mergebuf 1 / 7 / 10^6 with max_merge 2 over 4 chunks repeating pixels, result also compared across mergebuf; every DataFrame chunk of every API case gets a row-label representation by rotation (default RangeIndex, permutation of 0..n-1, labels running across chunks, strided RangeIndex, duplicate labels, string labels), plus dedicated cases per kind x ensure_sorted on (rows shuffled) / off x unordered (mergebuf 1, one and two passes) / ordered / one single DataFrame; , check flags off, output URI with group, mode=a / --append next to an existing cooler, `cooler load` --one-based / duplex / --count-as-float / --field / bg2 / chromsizes:binsize bins, `cload pairs` --zero-based / BED bins / permuted field numbers / duplex / --field score; a HISTORY pass in one process (12 ingests): the same output path, temp dir, bin-table objects, chunk list, columns / dtypes objects, sanitizer / aggregator objects and agg dict across consecutive ingests whose records, bin table (incl. same chromsizes and nbins), columns and storage mode change, chunks as generator / list / tuple / iterator, caller objects asserted unchanged; the bin table of every output is part of the observable. non-trivial = a pixel occurs in >= 2 chunks, or >= 2 merge epochs, or two passes; distinct by input hash")
+        "arrays of length 2..3 (increments 0..2) x bufsize 1..nnz+1 plus random larger ones; the known finding D22 in a fresh interpreter; parameter/representation audit (one case each): chunks as dict of arrays / list / int32 ids / int32 and float64 values / with an unrequested column, columns=None, dtypes None / partial / float default, ids listed in columns, default mergebuf, max_merge 0 and -1, temp_dir None (location observed with delete_temp=False) and \"-\"the WHOLE bin table is compared: a share of the cases (every 4th random case + 15 dedicated: 1 / 3 / 5 / 10 chunks, one and two passes, 3 bin tables) passes a bins frame with extra columns (float with NaN, float, int64, string) whose names, dtypes and values must arrive unchanged; bin-id columns of dtype int32 / int64 / uint16 / uint32 / uint64 x ensure_sorted on (rows shuffled) / off x mergebuf 1 / 7 / 10^6 with max_merge 2 over 4 chunks repeating pixels, result also compared across mergebuf; every DataFrame chunk of every API case gets a row-label representation by rotation (default RangeIndex, permutation of 0..n-1, labels running across chunks, strided RangeIndex, duplicate labels, string labels), plus dedicated cases per kind x ensure_sorted on (rows shuffled) / off x unordered (mergebuf 1, one and two passes) / ordered / one single DataFrame; , check flags off, output URI with group, mode=a / --append next to an existing cooler, `cooler load` --one-based / duplex / --count-as-float / --field / bg2 / chromsizes:binsize bins, `cload pairs` --zero-based / BED bins / permuted field numbers / duplex / --field score; a HISTORY pass in one process (12 ingests): the same output path, temp dir, bin-table objects, chunk list, columns / dtypes objects, sanitizer / aggregator objects and agg dict across consecutive ingests whose records, bin table (incl. same chromsizes and nbins), columns and storage mode change, chunks as generator / list / tuple / iterator, caller objects asserted unchanged; the bin table of every output is part of the observable. non-trivial = a pixel occurs in >= 2 chunks, or >= 2 merge epochs, or two passes; distinct by input hash")
 TRUSTED = ["pandas concat/groupby/sort_values, np.linspace, tempfile.NamedTemporaryFile and h5py are observed through create_cooler, modelled by Model/Merge.v",
            "for the CLI runs the harness itself turns text lines into per-chunk records (bin assignment, upper-triangle reflection, per-chunk aggregation for cload): "
            "that is the ingest pipeline of C05, not part of this property"]
@@ -179,7 +179,7 @@ def impl_api(root, case, limit=20.0):
         with warnings.catch_warnings():
             warnings.simplefilter("ignore")
             with G.time_limit(limit):
-                cooler.create_cooler(uri, G.bins_df(case["ax"]), pixels,
+                cooler.create_cooler(uri, G.bins_df_extra(case["ax"]) if case.get("bins_extra") else G.bins_df(case["ax"]), pixels,
                                      ordered=bool(case.get("ordered")), symmetric_upper=bool(case["symm"]),
                                      max_merge=case["max_merge"], delete_temp=not keep, **kw)
                 raw = G.read_raw(uri, [c for c, _ in cols])
@@ -378,6 +378,7 @@ def parse_model(v, case):
     m = G.parse_obs(obs)
     if isinstance(m, dict):
         m["bins"] = G.expected_bins(case["ax"])
+        m["bins_extra"] = G.expected_bins_extra(case["ax"]) if case.get("bins_extra") else {}
         if case.get("mode_a"):
             m["kept"] = True
         if case.get("keep_temp"):
@@ -421,6 +422,8 @@ def oracle(case):
            "off": [sum(1 for (i, _) in keys if i < b) for b in range(n + 1)], "px": px, "nnz": len(px),
            "sum": sum(r[2][names.index("count")] for r in px) if "count" in names else 0}
     exp["bins"] = G.expected_bins(case["ax"])
+    # the whole bin table: every extra per-bin column the caller supplied, with its dtype and values (NaN included)
+    exp["bins_extra"] = G.expected_bins_extra(case["ax"]) if case.get("bins_extra") else {}
     if case.get("mode_a"):
         exp["kept"] = True                   # the cooler that was already in the file is untouched
     return exp
@@ -432,7 +435,7 @@ def check_oracle(ctx, case, got, exp):
     if not isinstance(got, dict):
         ctx.fail(case, {"expected": exp, "got": got}, None)
         return
-    core = {k: got[k] for k in ("symm", "cols", "off", "px", "nnz", "sum", "kept", "bins") if k in got}
+    core = {k: got[k] for k in ("symm", "cols", "off", "px", "nnz", "sum", "kept", "bins", "bins_extra") if k in got}
     if core != exp:
         ctx.fail(case, {"expected": exp, "got": core}, None)
         return
@@ -991,6 +994,13 @@ def run(ctx):
     cases += dtype_grid_cases(rng, thorough)
     cases += index_cases(rng)
     cases += id_dtype_cases(rng)
+    base = [[(0, 1, [3]), (1, 2, [5])], [(0, 1, [1]), (2, 2, [7])], [(1, 2, [2]), (2, 3, [1])], [(0, 0, [4])], [(0, 1, [1]), (3, 3, [2])]]
+    for ax in ("A4", "B5", "V4"):
+        for chunks, buf, mm in ((base[:1], 1, 200), (base[:3], 1, 200), (base, 1, 1), (base, 3, 2), (base * 2, 1, 2)):
+            cases.append(("bins-extra", api_case(ax, True, COLS1, chunks, buf, mm, bins_extra=True)))
+    for q, (kind, case) in enumerate(cases):
+        if kind.startswith("random:") and q % 4 == 0:
+            case["bins_extra"] = True
 
     # known finding (temp files of the FIRST creation of a process survive it): exercised in a fresh
     # interpreter; this process is warmed up with one ordered creation so that every other case is
